@@ -337,6 +337,8 @@ class Node(object):
                 self.interrupted_individuals.remove(ind)
                 self.number_interrupted_individuals -= 1
                 ind.interrupted = False
+                if ind.is_blocked:
+                    self.unblock_in_place(ind)
             else:
                 ind = self.choose_next_customer()
             if ind is not None:
@@ -765,9 +767,25 @@ class Node(object):
         """
         Rerouts a preempted individual
         """
+        if individual.is_blocked:
+            self.unblock_in_place(individual)
         next_node = self.next_node_for_rerouting(individual)
         self.write_interruption_record(individual, destination=next_node.id_number)
         self.release(individual, next_node, reroute=True)
+
+    def unblock_in_place(self, individual):
+        """
+        A blocked individual whose service is interrupted gives up its place in
+        the blocked queue of its destination (as when an interrupted individual
+        is taken back into service in `begin_interrupted_individuals_service`).
+        """
+        node_blocked_to = self.simulation.nodes[individual.destination]
+        individual.destination = False
+        node_blocked_to.blocked_queue.remove((self.id_number, individual.id_number))
+        node_blocked_to.len_blocked_queue -= 1
+        self.simulation.statetracker.change_state_release(self, node_blocked_to, individual, True)
+        individual.is_blocked = False
+        self.simulation.statetracker.change_state_accept(self, individual)
 
     def update_next_end_service_without_server(self):
         """
